@@ -226,11 +226,22 @@ def run(ctx):
                     guards.append(t)
             wrong = [t for t in tests if t not in guards and all(v.cfg.branch_dominated(v.cfg.by_ast[id(t.test)], "F" if isinstance(t.test.ops[0], ast.NotIn) else "T", v.cfg_id(c)) for c in searches)]
             other_ifs = [n for n in ast.walk(lp) if isinstance(n, ast.If) and n not in tests]
+            # `for comp in components: if node in comp: break` / `else: <search>`: the search runs when no component found so far
+            # holds the node
+            for_else = False
+            for inner in [x for x in ast.walk(lp) if isinstance(x, ast.For) and x is not lp and x.orelse]:
+                in_else = all(any(c is y for st_ in inner.orelse for y in ast.walk(st_)) for c in searches)
+                brk = [t for t in tests if isinstance(t.test.ops[0], ast.In) and any(t is y for st_ in inner.body for y in ast.walk(st_)) and any(isinstance(b_, ast.Break) for b_ in t.body)]
+                if in_else and brk:
+                    for_else = True
+            if for_else:
+                res.ok("CC-COVER", f, f"for c in components: if {node} in c: break / else: search", "guard", loc(v.fi, lp))
+                continue
             if guards:
                 res.ok("CC-COVER", f, f"if {node} not in visited", "guard", loc(v.fi, guards[0]))
             elif wrong:
                 res.violation("CC-COVER", f, f"if {node} not in visited", "guard", "a search is started exactly for the nodes that ARE already visited", loc(v.fi, wrong[0]))
-            elif not other_ifs:
+            elif not other_ifs and not tests:
                 res.violation("CC-COVER", f, f"if {node} not in visited", "guard", "a search is not started exactly for the nodes that are not yet visited", loc(v.fi, lp))
             else:
                 res.unknown("CC-COVER", f, f"if {node} not in visited", "guard", "the visited-test that guards the search was not recognised", loc(v.fi, lp))
